@@ -305,3 +305,17 @@ VARIANTS += [
     dict(prop="C09", name="deserialize-le-prime", expect="RANGE-invariant",
          edits=[dict(file=PF, find="if v < Self::PRIME {", replace="if v <= Self::PRIME {")]),
 ]
+
+GSF = "ipa-core/src/helpers/gateway/send.rs"
+GMF = "ipa-core/src/helpers/gateway/mod.rs"
+VARIANTS += [
+    # ---------------- C13 ----------------
+    dict(prop="C13", name="send-before-count-check", expect="GUARD-count|bound-check",
+         edits=[dict(file=GSF, find="            if usize::from(record_id) >= count.get() {", replace="            if usize::from(record_id) > count.get() {")]),
+    dict(prop="C13", name="close-at-i", expect="GUARD-count|close-at-last",
+         edits=[dict(file=GSF, find="            self.ordering_tx.close(i + 1).await;", replace="            self.ordering_tx.close(i).await;")]),
+    dict(prop="C13", name="receiver-wrong-transport", expect="KEY-recv|get_shard_receiver:route",
+         edits=[dict(file=GMF, find="                self.transports\n                    .shard\n                    .receive(channel_id.peer, (self.query_id, channel_id.gate.clone())),", replace="                self.transports\n                    .shard\n                    .receive(channel_id.peer, (self.query_id, crate::protocol::Gate::default())),")]),
+    dict(prop="C13", name="close-without-is-last", expect="GUARD-count|close-at-last",
+         edits=[dict(file=GSF, find="        if self.total_records.is_last(record_id) {\n            self.ordering_tx.close(i + 1).await;\n        }", replace="        if usize::from(record_id) + 2 >= self.total_records.count().unwrap_or(usize::MAX) {\n            self.ordering_tx.close(i + 1).await;\n        }")]),
+]
